@@ -24,6 +24,7 @@ for name, comp in vcheck.load_components().items():
     keep = lambda f: f in comp.functions or any(k[0] == f for k in comp.loops)
     out[name] = {f: p for f, p in spec.signatures_of(text).items() if keep(f)}
     out[name + '#functions'] = sorted(spec.signatures_of(text))
+    out[name + '#statics'] = sorted(meta.get('storage', {}))
     out[name + '#locals'] = {f: p for f, p in spec.locals_of(text).items() if keep(f) and p}
 json.dump(out, open(os.path.join(ROOT, 'contracts', 'signatures.json'), 'w'), indent=1, sort_keys=True)
 print({k: len(v) for k, v in out.items()})
